@@ -81,8 +81,7 @@ class Ctx:
         """Build a Go package (harness cmd or a cmd of /repo) from the harness
         module, which `replace`s github.com/google/wuffs => /repo.  Never builds
         with cwd=/repo (that would rewrite /repo/go.mod under -mod=mod)."""
-        cwd = cwd or HARNESS
-        self._ensure_gosum()
+        cwd = cwd or self.harness_dir()
         name = out or os.path.basename(pkg.rstrip("/"))
         outp = os.path.join(self.subdir("bin"), name)
         cmd = ["go", "build", "-o", outp]
@@ -99,7 +98,6 @@ class Ctx:
         return outp
 
     def go_test_build(self, pkg, out, tags="verif", race=False, timeout=900):
-        self._ensure_gosum()
         outp = os.path.join(self.subdir("bin"), out)
         cmd = ["go", "test", "-c", "-o", outp]
         if tags:
@@ -107,13 +105,29 @@ class Ctx:
         if race:
             cmd += ["-race"]
         cmd += [pkg]
-        r = subprocess.run(cmd, cwd=HARNESS, env=self.env, capture_output=True, text=True, timeout=timeout)
+        r = subprocess.run(cmd, cwd=self.harness_dir(), env=self.env, capture_output=True, text=True, timeout=timeout)
         if r.returncode != 0:
             raise ToolingError("go test -c %s failed:\n%s" % (pkg, (r.stdout + r.stderr)[-4000:]))
         return outp
 
-    def _ensure_gosum(self):
-        dst = os.path.join(HARNESS, "go.sum")
+    def harness_dir(self):
+        """The Go harness module.  With VERIF_REPO pointing at a scratch
+        worktree (mutation experiments) a private copy of the module is made
+        whose `replace` points there, so that concurrent checks against /repo
+        are not disturbed."""
+        if REPO == "/repo":
+            self._ensure_gosum(HARNESS)
+            return HARNESS
+        d = os.path.join(self.scratch, "harness")
+        if not os.path.isdir(d):
+            shutil.copytree(HARNESS, d)
+            gm = open(os.path.join(d, "go.mod")).read().replace("=> /repo", "=> " + REPO)
+            open(os.path.join(d, "go.mod"), "w").write(gm)
+            self._ensure_gosum(d)
+        return d
+
+    def _ensure_gosum(self, hdir):
+        dst = os.path.join(hdir, "go.sum")
         src = os.path.join(REPO, "go.sum")
         want = ""
         if os.path.exists(src):
@@ -123,8 +137,10 @@ class Ctx:
             want += open(extra).read()
         cur = open(dst).read() if os.path.exists(dst) else None
         if cur is None or not all(l in cur for l in want.splitlines()):
-            with open(dst, "w") as f:
+            tmp = dst + ".%d.tmp" % os.getpid()
+            with open(tmp, "w") as f:
                 f.write(want)
+            os.replace(tmp, dst)
 
     def run(self, cmd, timeout=600, cwd=None, env=None, input=None, check=False, text=True):
         e = dict(self.env)
@@ -246,7 +262,9 @@ class Ctx:
                     print(msg, flush=True)
                 return False
         n = len(self.violations) + 1
-        path = os.path.join(VERIF, "replays", "%s-%s-%d-%d.json" % (self.id, self.tier, self.seed, n))
+        rdir = os.path.join(VERIF, "replays") if REPO == "/repo" else os.path.join("/tmp", "verif-replays-alt")
+        os.makedirs(rdir, exist_ok=True)
+        path = os.path.join(rdir, "%s-%s-%d-%d.json" % (self.id, self.tier, self.seed, n))
         with open(path, "w") as f:
             json.dump({"property": self.id, "what": what, "replay": replay}, f, indent=1, default=str)
         self.violations.append((what, path))
@@ -273,7 +291,9 @@ class Ctx:
             "violations": len(self.violations),
             "known_findings_reported": self.known_hits,
         }
-        path = os.path.join(VERIF, "evidence", self.id + ".json")
+        edir = os.path.join(VERIF, "evidence") if REPO == "/repo" else os.path.join("/tmp", "verif-evidence-alt")
+        os.makedirs(edir, exist_ok=True)
+        path = os.path.join(edir, self.id + ".json")
         tmp = path + ".tmp"
         with open(tmp, "w") as f:
             json.dump(ev, f, indent=1, default=str)
